@@ -126,6 +126,77 @@ pub fn check_list_opt(prefix: &str, items: &[(&str, bool)], reqs: &[Req], l: &mu
     }
 }
 
+/// The same comparison with a second subject: a blocker that starts empty and receives the rules
+/// of the list one by one through `Blocker::add_filter` (`$badfilter` rules are refused there, by
+/// documentation; they are left out on both sides). `optimize`: the blocker's build option (it
+/// has nothing to fuse at build time; `add_filter` documents that it skips optimisation).
+pub fn check_list_incremental(prefix: &str, items: &[(&str, bool)], reqs: &[Req], l: &mut Local, resources: bool, optimize: bool) {
+    use adblock::blocker::{Blocker, BlockerError, BlockerOptions};
+    let std_rules: Vec<&str> = items.iter().filter(|i| !i.1).map(|i| i.0).collect();
+    let hosts: Vec<&str> = items.iter().filter(|i| i.1).map(|i| i.0).collect();
+    let rules: Vec<Rule> = ns::parse_rules(&std_rules, &hosts).into_iter().filter(|r| !r.f.is_badfilter()).collect();
+    let built = crate::util::catch(|| {
+        let mut b = Blocker::new(vec![], &BlockerOptions { enable_optimizations: optimize });
+        let mut refused_other = None;
+        for r in &rules {
+            match b.add_filter((*r.f).clone()) {
+                Ok(()) | Err(BlockerError::FilterExists) => {}
+                Err(e) => refused_other = Some(format!("{:?} for {}", e, r.text)),
+            }
+        }
+        (b, refused_other)
+    });
+    l.states += 1;
+    let case_of = |tagset: &[String], rq: Option<&Req>| {
+        json!({"rules": std_rules, "hosts": hosts, "tags": tagset, "url": rq.map(|r| r.url.clone()), "source": rq.map(|r| r.source.clone()), "type": rq.map(|r| r.ty), "resources": resources, "optimize": optimize, "incremental": true})
+    };
+    let (b, refused) = match built {
+        Ok(x) => x,
+        Err(loc) => {
+            l.mismatch(Mismatch { sig: format!("{}.rules-added-one-by-one.panic@{}", prefix, loc), what: format!("adding {:?}+{:?} one by one panics", std_rules, hosts), case: case_of(&[], reqs.first()), size: items.len() as u64 });
+            return;
+        }
+    };
+    if let Some(why) = refused {
+        l.mismatch(Mismatch { sig: format!("{}.rules-added-one-by-one.refused", prefix), what: format!("add_filter refuses a rule that is neither present nor a badfilter: {}", why), case: case_of(&[], reqs.first()), size: items.len() as u64 });
+        return;
+    }
+    let mut subj = ns::Incremental {
+        b,
+        res: if resources { adblock::resources::ResourceStorage::from_resources(crate::net::std_resources()) } else { Default::default() },
+    };
+    let store = if resources { ns::std_res_spec() } else { vec![] };
+    let tags_present = alpha::tags_in(&std_rules);
+    for tagset in subsets_of(&tags_present) {
+        let tagrefs: Vec<&str> = tagset.iter().map(|s| s.as_str()).collect();
+        subj.b.use_tags(&tagrefs);
+        let tags: HashSet<String> = tagset.iter().cloned().collect();
+        let active = ns::active_rules_by_text(&rules, &tags);
+        for rq in reqs {
+            l.evaluations += 1;
+            l.transitions += 1;
+            let (d, spec, got) = ns::compare_subject_active(&subj, &active, &rq.req, &rq.url, &store);
+            l.compared += 1;
+            if spec.verdict.hits > 0 {
+                l.nontrivial += 1;
+            }
+            if spec.verdict.any_unspec() {
+                l.unspecified += 1;
+            }
+            if let Some(field) = d {
+                l.mismatch(Mismatch {
+                    sig: format!("{}.rules-added-one-by-one", classify(prefix, &field, &spec, &rules, rq)),
+                    what: format!(
+                        "rules {:?}+{:?} added with Blocker::add_filter, tags {:?}, request ({}, {}, {}): matching rules {:?}; reference {:?}; blocker {:?}",
+                        std_rules, hosts, tagset, rq.url, rq.source, rq.ty, spec.matching, spec.verdict, got
+                    ),
+                    case: case_of(&tagset, Some(rq)),
+                    size: (items.len() * 10000 + tagset.len() * 1000 + rq.url.len() * 4 + rq.source.len()) as u64,
+                });
+            }
+        }
+    }
+}
 
 /// Re-executes a stored case `{rules, hosts, tags?, url, source, type}`.
 pub fn replay_case(prefix: &str, case: &Value, l: &mut Local, resources: bool) {
@@ -147,6 +218,10 @@ pub fn replay_case(prefix: &str, case: &Value, l: &mut Local, resources: bool) {
     let ty: &'static str = Box::leak(case["type"].as_str().unwrap_or("script").to_string().into_boxed_str());
     if let Ok(req) = adblock::request::Request::new(&url, &source, ty) {
         let reqs = vec![Req { req, url, source, ty }];
-        check_list_opt(prefix, &items, &reqs, l, false, resources, case["optimize"].as_bool().unwrap_or(false));
+        if case["incremental"].as_bool().unwrap_or(false) {
+            check_list_incremental(prefix, &items, &reqs, l, resources, case["optimize"].as_bool().unwrap_or(false));
+        } else {
+            check_list_opt(prefix, &items, &reqs, l, false, resources, case["optimize"].as_bool().unwrap_or(false));
+        }
     }
 }
